@@ -473,6 +473,16 @@ def _content(ctx, em):
         ctx.ob('C12.5', cache, node, ok,
                'the task id is set before the manifest is written',
                construct='task set before write')
+        # ... and is the part of the instance name behind its '#'
+        want = ("%s[%s.index('#') + 1:]" % (app, app),
+                "%s.rpartition('#')[2]" % app, "%s.split('#')[1]" % app,
+                "%s.rsplit('#', 1)[1]" % app)
+        ctx.ob('C12.5', cache, tasks[0] if tasks else node,
+               bool(tasks) and all(
+                   K.rtxt(cache, t.ast.value) in want for t in tasks),
+               "the task id is the instance id (what follows '#' in the "
+               'name): %s' % [K.rtxt(cache, t.ast.value) for t in tasks],
+               construct='task id value')
         # the placement record: first component of the first
         # get_with_metadata(...) result
         pdata = 'placement_data'
@@ -666,6 +676,19 @@ def _first_sync(ctx, em):
            'every placement notification reaches _synchronize',
            path=K.describe(skip) if skip else None,
            construct='watch callback always synchronises')
+    # a kazoo watch callback that returns a false value is never called
+    # again: the placement watch answers True on every exit, or the cache
+    # stops following the placement after the first notification
+    rets = [n for n in wgraph.nodes if n.kind == 'return']
+    falls = [e for e in wgraph.exit.pred
+             if e.src.kind not in ('return', 'raise_stmt') and
+             e.kind != 'exc']
+    okr = bool(rets) and not falls and all(
+        isinstance(r.ast.value, ast.Constant) and r.ast.value.value is True
+        for r in rets)
+    ctx.ob('C12.1', wfunc, rets[0] if rets else None, okr,
+           'the placement watch callback keeps the watch alive (returns '
+           'True on every exit)', construct='watch callback result')
     registered = 0
     for func in [run] + list(nested.values()):
         graph = ctx.cfg(func)
@@ -710,6 +733,29 @@ def check(ctx):
     _tolerated_faults(ctx, em)
     _owner(ctx)
     _write_safe(ctx)
+    # the atomic-write helper and its relatives tolerate exactly the benign
+    # race (directory already there, temp file already gone)
+    fsmod = ctx.index.module(FS)
+    judged = 0
+    for fname in ('write_safe', 'rm_safe', 'mkdir_safe', 'replace'):
+        func = fsmod.functions.get(fname)
+        if func is not None:
+            judged += K.tolerance_polarity(ctx, 'C12.3', func)
+    ctx.require(judged >= 2, 'errno tests in the fs helpers (found %d)' %
+                judged, rule='C12.3')
+    # fs.replace(a, b) moves a onto b (the temp file onto the destination,
+    # never the other way round)
+    rep = fsmod.functions.get('replace')
+    ctx.require(rep is not None, 'fs.replace')
+    moves = [c for c in K.calls(rep.node)
+             if K.callee_text(c) in ('os.rename', 'os.replace') or
+             K.callee_text(c).endswith('MoveFileEx')]
+    ctx.ob('C12.3', rep, moves[0] if moves else None,
+           bool(moves) and all(
+               [N.txt(a) for a in c.args[:2]] == rep.params()[:2]
+               for c in moves),
+           'fs.replace renames its first argument onto its second',
+           construct='replace direction')
     _invisible(ctx, em)
     _content(ctx, em)
 
